@@ -18,6 +18,7 @@ CONSTANTS
   Resources = {"at", "tcc"}
   Bystanders = {TRUE}
   MaxLoss = 1
+  MaxAnnFail = 0
   Shifts = {0, 1}
 INVARIANTS Dump
 CHECK_DEADLOCK FALSE
